@@ -4,26 +4,36 @@ PROP = dict(
             dict(name="english-and-limit", go_test="TestC11", runner="C11",
                  env=dict(quick=dict(VERIF_CASES=640), thorough=dict(VERIF_CASES=24000))),
         ],
-        rule="case = one auction or one limit-bid book on the real keepers. English cases (5 of 8): variant in {generation 1 surplus, generation 1 debt "
+        rule="case = one auction or one limit-bid book on the real keepers. English cases (6 of 8): variant in {generation 1 surplus, generation 1 debt "
              "(x/auction msg server + BeginBlocker), generation 2 surplus / generic-external / inverted debt (x/auctionsV2 msg server + BeginBlocker)}, "
              "2-5 bidders (rich, poor, unfunded), bid factor in {0, 1e-6, 0.01, 0.05, 0.1, 1/3, 1}, 8-30 ops: bids that are barely improving (exact threshold), "
              "threshold-1, equal, lower, zero, negative, unaffordable, wrong denom, wrong expected-user-token; block hooks at small steps and exactly on / one second "
              "past bid_end and end (restart without bids, close with bids), closes that fail (collector without the lot, tokenmint supply too small); "
-             "limit cases (3 of 8): 2-5 depositors, 3 debt denoms / markets, closing and withdrawal fee in {0, 1e-6, 0.005, 0.01, 0.1, 1}, 8-32 ops: deposit, cancel "
-             "(repeated, foreign), withdraw with amount in {own, own+1, own-1, 2*own+900000, 0, 1, 2900000, own/2} and 18% foreign denoms held by the module. "
+             "limit cases (2 of 8, plus 3 corpus cases that always run first: the witnesses of the repaired defects C11-F1 amount, C11-F1 denom, C11-F2): "
+             "2-5 depositors, 3 debt denoms / markets, closing and withdrawal fee in {0, 1e-6, 0.005, 0.01, 0.1, 1}, 8-44 ops: deposit, cancel "
+             "(repeated, foreign), withdraw with amount in {own, own+1, own-1, 2*own+900000, 0, 1, 2900000, own/2} and 18% foreign denoms held by the module; "
+             "in 55% of the limit cases 1-2 Dutch auctions of an external initiator (debt 0.5-3 M, penalty in {0, 5, 120000}, collateral 0.5x-10x, app reserve none/small/big) "
+             "run on the book's market and blocks (the real auctionsV2.BeginBlocker) are aimed at the discount of live records: the automatic fill "
+             "(LimitOrderBid) is exercised with records below / equal to / above the auction debt, several records per closure, committed and rolled-back closures. "
              "non-trivial = english: at least one accepted bid over a standing bid (a refund happened); limit: at least one accepted deposit and one accepted "
              "withdraw/cancel; distinct by digest of (variant, op sequence)",
         modelled=["bank keeper as a function ledger (send/mint/burn of one coin)", "tokenmint Burn/MintNewTokensForApp success is an input (tm_ok) recomputed by the harness from the tokenmint store",
-                  "the automatic fill (LimitOrderBid) is modelled per record with the Dutch settlement as an environment input; it is NOT exercised by the harness",
-                  "limit-bid fee bookkeeping record, per-address index and bidding-id counter are not modelled"],
+                  "the automatic fill (LimitOrderBid) is modelled per auction closure (the loop over the listed records against the auction debt read before the loop, "
+                  "the early return of the equal-amount branch, all-or-nothing); which closures run, their listing, the auction debt and whether the closure was committed are read "
+                  "off the implementation (a throw-away AuctionIterator run on a cache context, the auction afterwards); the Dutch settlement (PlaceDutchAuctionBid: collateral "
+                  "pay-out, burn, fees, reserve) is an environment input: only its net effect on the module's debt-denom coins is replayed",
+                  "limit-bid custody is measured on the module balance minus the proceeds that running Dutch auctions keep in the module (TargetDebt - outstanding debt) minus the balance at case start",
+                  "limit-bid fee bookkeeping record (the code never records a limit-bid fee under the debt asset: the variable is shadowed in the not-found branch), per-address index and bidding-id counter are not modelled"],
         assumptions=["ESM / kill-switch not triggered (the generation 1 statusEsm close path is not modelled)", "bidder accounts are plain accounts (ids >= 0), distinct from the module accounts",
-                     "bid denom <> lot denom (enforced by the collector: CollectorAssetID != SecondaryAssetID)", "0 <= closing/withdrawal fee <= 1 for the limit-bid theorems",
+                     "bid denom <> lot denom (enforced by the collector: CollectorAssetID != SecondaryAssetID)", "0 <= closing/withdrawal fee <= 1 for the limit-bid custody / own-deposit theorems",
+                     "an automatic fill's Dutch settlement disburses no more of the module's debt coins than the filled records are charged (C10's concern; hypothesis fill_env of c11_limit_custody, "
+                     "checked on every observed block through the custody predicate)",
                      "one auction per module account is attributed at a time: custody is measured relative to the module balance when the auction started"],
     )
 
 MANIFEST = dict(
-    level_text="Ledger invariant of the English-auction state machine proved for all five coded variants and every finite history of bids and block hooks: module custody attributable to the auction = standing payment; an accepted bid improves by at least ceil(factor*standing); the outbid bidder is whole again in the same step; after the close the last accepted bidder paid the standing payment and got the lot and every other bidder's net change is 0. Limit bids: total = sum of deposits, custody covers deposits, pay-out <= own deposit - fee in the deposited denom proved outside the executable classes kf_C11_1 / kf_C11_2, refuted inside them by computed witnesses. Models tied to /repo by a differential run through the real msg servers and BeginBlockers on every check.",
+    level_text="Ledger invariant of the English-auction state machine proved for all five coded variants and every finite history of bids and block hooks: module custody attributable to the auction = standing payment; an accepted bid improves by at least ceil(factor*standing); the outbid bidder is whole again in the same step; after the close the last accepted bidder paid the standing payment and got the lot and every other bidder's net change is 0. Limit bids (on the code repaired by fixes/C11-F1 and fixes/C11-F2): recorded total = sum of deposits, no negative deposit, every deposit in its market's debt denom for EVERY finite history of deposit / cancel / withdraw messages and automatic fills (no hypothesis); custody covers the deposits for every history of messages by bidder accounts and automatic fills whose Dutch settlement disburses at most what the records are charged; an accepted withdraw / cancel in any reachable state pays the sender at most its own deposit minus the fee, in the deposited denom, and nobody else. Models tied to /repo by a differential run through the real msg servers and BeginBlockers (including the automatic fill) on every check.",
     design_ref="DESIGN.md section 4 C11",
-    level_note="Trusted: Coq kernel, extraction (ExtrOcamlBasic), OCaml runner, Go harness. No axioms (Closed under the global context). The automatic fill is modelled but not exercised; kf_C11_2 is therefore not listed as a known finding.",
+    level_note="Trusted: Coq kernel, extraction (ExtrOcamlBasic), OCaml runner, Go harness. No axioms (Closed under the global context). The two defects found on the original tree (C11-F1 withdraw without amount / denom check, C11-F2 stale BidValue after an exact automatic fill) are repaired by the patches under fixes/; the model follows the repaired code, no known-finding class is left, the witnesses stay in the harness corpus and as Examples.",
     technique="Coq proof (state-machine invariants by induction over op histories) + model/implementation correspondence run",
 )
